@@ -192,6 +192,25 @@ def run(ctx):
             chk("count_kmers", g == ref["kmers"], g, ref["kmers"])
             grp = [(str(k), [str(x) for x in v.name.tolist()]) for k, v in bnp.groupby(stream(), "chromosome")]
             chk("groupby", grp == ref["groups"], grp, ref["groups"])
+            # a caller-supplied key function names the groups
+            grp = [(str(k), [str(x) for x in v.name.tolist()]) for k, v in bnp.groupby(stream(), "chromosome", key=lambda c_: "<%s>" % c_.to_string())]
+            chk("groupby:custom-key", grp == [("<%s>" % k, v) for k, v in ref["groups"]], grp, [("<%s>" % k, v) for k, v in ref["groups"]])
+            # a loop over the stream left early with `break`, the same stream used afterwards: what comes afterwards is the rest
+            st_ = stream()
+            first_names = []
+            for c_ in st_:
+                first_names += [str(x) for x in c_.name.tolist()]
+                break
+            rest_names = [str(x) for c_ in st_ for x in c_.name.tolist()]
+            chk("stream:resumed-after-break", first_names + rest_names == [x[3] for x in rows], first_names + rest_names, [x[3] for x in rows])
+            if len(cuts) >= 1:
+                st_ = stream()
+                for c_ in st_:
+                    n_first = len(c_)
+                    break
+                g = np.asarray(bnp.bincount(st_.score))
+                want_b = np.bincount(np.asarray(t.score)[n_first:]) if n_first < n else np.zeros(0, dtype=int)
+                chk("bincount:on-the-rest-of-a-stream", same(g, want_b) or (g.size == 0 and want_b.size == 0), np.asarray(g).tolist(), want_b.tolist())
             # chunk_entries
             m = case["m"]
             ch = [len(c) for c in chunk_entries(stream(), m)]
@@ -286,6 +305,28 @@ def run(ctx):
             chk("chunk_lines:sizes", all(len(c) == m for c in cl[:-1]) and sum(len(c) for c in cl) == n, [len(c) for c in cl], "all but last == %d" % m)
         ctx.count("datasets")
 
+    def big_kmers(case):
+        # more than a million k-mers in one table: the in-memory count (the value every chunking is compared with) and the streamed counts are the counts of the windows
+        r = random.Random(case["seed"])
+        nprng = np.random.default_rng(case["seed"])
+        lens = [300000 + r.randint(0, 7) for _ in range(4)]
+        seqs = ["".join(np.array(list("ACGT"))[nprng.integers(0, 4, size=L)]) for L in lens]
+        tab = SequenceEntry(["s%d" % i for i in range(4)], bnp.as_encoded_array(seqs, bnp.DNAEncoding))
+        exp_total = sum(L - 1 for L in lens)
+        exp_aa = sum(s_.count("AA") + sum(1 for _ in ()) for s_ in seqs)      # non-overlapping count is not the window count: use the window count below
+        exp_aa = sum(sum(1 for i in range(len(s_) - 1) if s_[i] == "A" and s_[i + 1] == "A") for s_ in seqs[:1]) if False else None
+        whole = count_kmers(tab.sequence, 2)
+        tot_whole = int(np.asarray(whole.counts).sum())
+        ctx.check("count_kmers", tot_whole == exp_total, "count_kmers/total:more-than-1e6-kmers-in-one-table", "count_kmers over %d windows counts %d" % (exp_total, tot_whole), {"lengths": lens, "seed": case["seed"], "got": tot_whole, "expected": exp_total}, ("bigk", case["seed"]))
+        for cuts in ((1,), (2,), (1, 2, 3)):
+            b = [0] + list(cuts) + [4]
+            st = NpDataclassStream(iter([tab[i:j] for i, j in zip(b[:-1], b[1:])]), dataclass=SequenceEntry)
+            g = count_kmers(st.sequence, 2)
+            tot = int(np.asarray(g.counts).sum())
+            ctx.check("count_kmers", tot == exp_total and np.asarray(g.counts).ravel().tolist() == np.asarray(whole.counts).ravel().tolist(), "count_kmers/streamed!=in-memory:more-than-1e6-kmers-in-one-table",
+                      "streamed count_kmers (cuts %r) counts %d, in memory %d, windows %d" % (cuts, tot, tot_whole, exp_total), {"lengths": lens, "seed": case["seed"], "cuts": list(cuts)}, ("bigk", case["seed"], cuts))
+        ctx.count("big_kmer_tables")
+
     def file_case(case):
         r = random.Random(case["seed"])
         names, rows = make_dataset(r, case["n"], case["nchrom"])
@@ -317,6 +358,8 @@ def run(ctx):
         ctx.run_case(one, {"seed": rng.randrange(2 ** 40), "n": rng.randint(nmax + 1, ctx.pick(40, 200)), "nchrom": rng.randint(1, 4), "m": rng.randint(1, 30)})
     for i in range(ctx.share(ctx.pick(32, 800))):
         ctx.run_case(file_case, {"seed": rng.randrange(2 ** 40), "n": rng.randint(1, 12), "nchrom": rng.randint(1, 3)})
+    if ctx.shard < ctx.pick(2, 8):
+        ctx.run_case(big_kmers, {"seed": ctx.seed * 53 + ctx.shard})
     ctx.sample({"dataset": [["chr1", 0, 5, "n0", 3, "+"], ["chr1", 4, 9, "n1", 7, "-"], ["chr2", 2, 3, "n2", 0, "+"]], "cuts": [1], "computations": "mean, bincount, histogram, count_kmers, groupby, chunk_entries, pipelines"})
     ctx.floor("judged:groupby", ctx.pick(200, 5000))
     ctx.floor("judged:pipeline:mask", ctx.pick(200, 5000))
